@@ -118,7 +118,7 @@ var bseq atomic.Int64
 
 func runBehaviour(c bcase, scenario string) {
 	id := c.id()
-	if !hk.Want(id) {
+	if !hk.Want(id) || breakerOpen() {
 		return
 	}
 	r := &result{}
@@ -276,6 +276,7 @@ func runBehaviour(c bcase, scenario string) {
 					}
 				} else if k.TermCount.Load() == 0 && hk.LiveRunners(k.PID) == 0 {
 					r.fail("terminate-callback-missing", "%s: child %s is unregistered, no runner alive, terminate callback never ran", id, k.PID)
+					stuckViolations.Add(1)
 				} else {
 					r.incon = "watchdog: child did not settle"
 				}
